@@ -55,6 +55,31 @@ theorem lookup_mem {α : Type} (k : Str) (l : List (Str × α)) (v : α) (h : lo
 @[simp] theorem pushVal_macros (st : JinjaV.NativeTpl.St) (v : Val) : (pushVal st v).macros = st.macros := by
   unfold pushVal; split <;> rfl
 
+@[simp] theorem pushConst_macros (st : JinjaV.NativeTpl.St) (s : String) : (pushConst st s).macros = st.macros := by
+  simp [pushConst]
+
+theorem splitVarEnd_mem (l : List PTok) (k : Str) (r2 : List PTok) (h : splitVarEnd l = some (k, r2)) :
+    True ∧ ∀ t ∈ r2, t ∈ l := by
+  refine ⟨trivial, ?_⟩
+  induction l generalizing k r2 with
+  | nil => simp [splitVarEnd] at h
+  | cons t r ih =>
+    intro x hx
+    cases t with
+    | varEnd =>
+      simp only [splitVarEnd, Option.some.injEq, Prod.mk.injEq] at h
+      obtain ⟨_, rfl⟩ := h
+      exact List.mem_cons_of_mem _ hx
+    | varBegin | blockBegin | blockEnd | data _ => simp [splitVarEnd] at h
+    | name s | op s | lit s =>
+      simp only [splitVarEnd] at h
+      split at h
+      · rename_i k' r2' heq
+        simp only [Option.some.injEq, Prod.mk.injEq] at h
+        obtain ⟨_, rfl⟩ := h
+        exact List.mem_cons_of_mem _ (ih _ _ heq x hx)
+      · cases h
+
 @[simp] theorem endOutput_macros (st : JinjaV.NativeTpl.St) : (endOutput st).macros = st.macros := rfl
 
 theorem macrosOk_nil : MacrosOk [] := by intro k p b h; simp [lookup] at h
@@ -67,6 +92,7 @@ theorem macrosOk_cons (m p : Str) (body : List PTok) (ms : List (Str × Str × L
   · simp only [Option.some.injEq, Prod.mk.injEq] at hl; rw [← hl.2]; exact hb
   · exact h k p' b hl
 
+set_option maxHeartbeats 1600000 in
 theorem guard_irrelevant (n : Nat) (toks : List PTok) (st : JinjaV.NativeTpl.St) (h : PTok.data [] ∉ toks)
     (hm : MacrosOk st.macros) :
     interp true n toks st = interp false n toks st := by
@@ -84,18 +110,30 @@ theorem guard_irrelevant (n : Nat) (toks : List PTok) (st : JinjaV.NativeTpl.St)
     have hmc := fun m p => macrosOk_cons m p _ _ h1 hm
     simp only [interp]
     simp_all; done)
+  all_goals try (
+    obtain ⟨_, hs2⟩ := splitVarEnd_mem _ _ _ (by assumption)
+    have h2 := fun hx => h (List.mem_cons_of_mem _ (hs2 _ hx))
+    conv => rhs; unfold interp
+    split <;> simp_all
+    done)
   case case10 n f a r st hl p body va hva hmac st2 hst2 v hv ih2 ih1 =>
     have hbody := hm _ _ _ hmac
     have e2 := ih2 hbody (by simpa [macroState] using macrosOk_nil)
     simp only [List.mem_cons, not_or, reduceCtorEq, not_false_eq_true, true_and] at h
     simp only [interp]
     simp_all
-  case case11 n f a r st hl p body va hva hmac st2 hst2 hv ih2 =>
+  case case11 n f a r st hl p body va hva hmac st2 hst2 raw hv ih2 ih1 =>
+    have hbody := hm _ _ _ hmac
+    have e2 := ih2 hbody (by simpa [macroState] using macrosOk_nil)
+    simp only [List.mem_cons, not_or, reduceCtorEq, not_false_eq_true, true_and] at h
+    simp only [interp]
+    simp_all
+  case case12 n f a r st hl p body va hva hmac st2 hst2 hv1 hv2 ih2 =>
     have hbody := hm _ _ _ hmac
     have e2 := ih2 hbody (by simpa [macroState] using macrosOk_nil)
     simp only [interp]
     simp_all
-  case case12 n f a r st hl p body va hva hmac hst2 ih2 =>
+  case case13 n f a r st hl p body va hva hmac hst2 ih2 =>
     have hbody := hm _ _ _ hmac
     have e2 := ih2 hbody (by simpa [macroState] using macrosOk_nil)
     simp only [interp]
